@@ -19,7 +19,7 @@ WITNESS_ONLY = ['quick tier: the two-run rigid-motion comparison of distance / a
 BOUNDS = {"quick": {"query": 2, "neighbours": 3}, "thorough": {"query": 2, "neighbours": 3}}
 EXPECTED_EXCEPTIONS = ()
 OPTS = {"qtimeout": 8.0, "otimeout": 40.0, "max_paths": 450}
-OPTS_THOROUGH = {'max_paths': 20000, 'budget_s': 1800}
+OPTS_THOROUGH = {'max_paths': 20000, 'budget_s': 1200}
 
 
 def _false(env):
